@@ -23,6 +23,7 @@ import (
 	"runtime"
 	"sort"
 	"strconv"
+	"strings"
 	"sync"
 	"syscall"
 	"time"
@@ -62,13 +63,18 @@ func emit(c *checker, harness string) {
 
 // runWorker processes the trees with index = k (mod n), in ascending order,
 // until the deadline.
-func runWorker(tier string, k, n int, deadline time.Time) {
+func runWorker(tier string, k, n int, deadline time.Time, ost bool) {
 	u := universeFor(tier)
 	R := filepath.Join(scratchBase(), fmt.Sprintf("c14-%d", os.Getpid()))
 
 	defer cleanup(R)
 
-	c := newChecker(R, u, fmt.Sprintf("w%d", k))
+	name := fmt.Sprintf("w%d", k)
+	if ost {
+		name = "ost-" + name
+	}
+
+	c := newChecker(R, u, name)
 	trees := u.trees()
 	shapeFrom, shapeTo := u.shapeRange()
 	plain := u.plainQueries()
@@ -148,6 +154,7 @@ func main() {
 	perm := flag.Bool("permworker", false, "internal: non-administrator part")
 	replay := flag.String("replay", "", "replay file")
 	noPerm := flag.Bool("noperm", false, "skip the non-administrator part")
+	ost := flag.Bool("ost", false, "internal: worker of the build with the tag avfs_setostype (hand-written Match)")
 	flag.Parse()
 
 	verifrt.SetMode(verifrt.ModeSeq)
@@ -158,7 +165,7 @@ func main() {
 	}
 
 	if *worker >= 0 {
-		runWorker(*tier, *worker, *nworkers, time.Unix(0, *deadlineNs))
+		runWorker(*tier, *worker, *nworkers, time.Unix(0, *deadlineNs), *ost)
 
 		return
 	}
@@ -224,8 +231,12 @@ func main() {
 
 	// watchdog: a child that is still running well after the deadline hangs in
 	// the code under test (or the sandbox stalls); that is a harness error here
+	childBin, childTier := bin, *tier
+
 	runChild := func(limit time.Time, args ...string) {
 		defer wg.Done()
+
+		bin, tier := childBin, &childTier
 
 		ctx, cancel := context.WithDeadline(context.Background(), limit)
 		defer cancel()
@@ -310,6 +321,34 @@ func main() {
 
 	wg.Wait()
 
+	// second pass: the same driver built with the tag avfs_setostype, in which
+	// avfs.Match (and with it Glob) is the library's own copy of the matcher
+	// instead of a call of path/filepath.Match. It runs the universe of the quick
+	// tier in both tiers (the thorough universe uses its whole budget in the first pass).
+	ostTrees, ostRan := 0, false
+
+	if _, err := os.Stat(bin + ".ost"); err == nil {
+		ostRan = true
+		childBin, childTier = bin+".ost", "quick"
+		ostTrees = len(universeFor("quick").trees())
+		ostDeadline := time.Now().Add(300 * time.Second)
+
+		no := runtime.NumCPU()
+		if no > ostTrees {
+			no = ostTrees
+		}
+
+		for k := 0; k < no; k++ {
+			wg.Add(1)
+
+			go runChild(ostDeadline.Add(90*time.Second), "-ost", "-worker", strconv.Itoa(k), "-nworkers", strconv.Itoa(no), "-deadline", strconv.FormatInt(ostDeadline.UnixNano(), 10))
+		}
+
+		wg.Wait()
+
+		childBin, childTier = bin, *tier
+	}
+
 	// the serial non-administrator part runs alone (no competition for its thread games)
 	if !*noPerm {
 		wg.Add(1)
@@ -319,7 +358,7 @@ func main() {
 	// ---- aggregate
 	states, evals, classes, buildFailed := map[string]int{}, map[string]int{}, map[string]int{}, map[string]int{}
 	spelledEvals, totSpelled := map[string]int{}, 0
-	done := map[int]bool{}
+	done, doneOst := map[int]bool{}, map[int]bool{}
 	permDone := 0
 	instances := 0
 
@@ -329,6 +368,10 @@ func main() {
 		for k, v := range s.States {
 			if s.Worker == "perm" {
 				k += "(nonadmin)"
+			}
+
+			if strings.HasPrefix(s.Worker, "ost-") {
+				k += "(hand-written Match)"
 			}
 
 			states[k] += v
@@ -353,6 +396,10 @@ func main() {
 
 		if s.Worker == "perm" {
 			permDone = len(s.TreesDone)
+		} else if strings.HasPrefix(s.Worker, "ost-") {
+			for _, i := range s.TreesDone {
+				doneOst[i] = true
+			}
 		} else {
 			for _, i := range s.TreesDone {
 				done[i] = true
@@ -368,7 +415,8 @@ func main() {
 		prefix++
 	}
 
-	exhaustive := prefix == len(trees) && !*noPerm && permDone == len(permScenarios(*tier)) && len(buildFailed) == 0
+	exhaustive := prefix == len(trees) && !*noPerm && permDone == len(permScenarios(*tier)) && len(buildFailed) == 0 &&
+		(!ostRan || len(doneOst) == ostTrees)
 
 	totStates, totEvals := 0, 0
 	for _, v := range states {
@@ -401,6 +449,11 @@ func main() {
 
 	bound := fmt.Sprintf("%s; trees in canonical order: %d of %d completed (first %d contiguous); non-administrator scenarios %d of %d (one directory of mode 0000/0111/0444; regular files reachable but not readable, modes %s, also below such a directory)",
 		u.Label, len(done), len(trees), prefix, permDone, len(permScenarios(*tier)), permModeNames(*tier))
+	bound += "; beside the product of the segment alphabet every pattern of <= 2 segments that holds one of {*b, **b, a**, **}"
+
+	if ostRan {
+		bound += fmt.Sprintf("; second pass in the build with the tag avfs_setostype (avfs.Match is the library's own matcher there, not path/filepath.Match): trees of the quick universe %d of %d completed", len(doneOst), ostTrees)
+	}
 
 	// harness errors are never a verdict: no VIOLATION lines then
 	code := 0
